@@ -298,6 +298,15 @@ def r04_2(prog, rep, ctx):
         rep.ok(rid, "_eject_task1/stop-before-free", ej.loc(st[0].line), "cancel stops the watcher before free_task")
     else:
         rep.fail(rid, "_eject_task1/stop-before-free", ej.loc(), "cancel frees the task without stopping its watcher first")
+    # ... and a cancel is acknowledged (return 0) only after the watcher has been stopped: otherwise libev fires the armed occurrence
+    for b_, i_, x_, ln_ in ej.cfg.all_elems():
+        if isinstance(x_, dict) and x_.get("k") == "ret" and x_.get("e") is not None and const_eval(ej, ej.cfg.resolve(x_["e"])) == 0:
+            hits, reached_entry = backward_scan(ej.cfg, (b_, i_), lambda bb, ii, xx: "hit" if elem_has_call(xx, "ev_periodic_stop") else None)
+            if reached_entry:
+                rep.fail(rid, "_eject_task1/ack-only-after-stop", ej.loc(ln_), "a cancel is acknowledged on a path that never stops the task's watcher: "
+                         "the next occurrence of the cancelled task is still executed")
+            else:
+                rep.ok(rid, "_eject_task1/ack-only-after-stop", ej.loc(ln_), "every acknowledged cancel has stopped the watcher")
     # registration in _inject_task1: the periodic is initialised with (task_cb, resched) and started
     inj = prog.fn("_inject_task1", DAEMON)
     got_r = {n for fx, fld, n, ln in sites if fx.name == inj.name and fld == "reschedule_cb"}
@@ -390,6 +399,8 @@ def run(prog, rep, tier, snap):
     from . import c12
     rep.rule("R12.7", "every occurrence that comes due reaches the executor (shared with C12)", 1)
     rep.call(c12.r12_7, prog, rep)
+    rep.rule("R12.2", "the run counter that gates real execution changes only with spawn and child exit (shared with C12)", 6)
+    rep.call(c12.r12_2, prog, rep)
     from . import c08
     rep.rule("R08.2", "the daemon's own instant -> timestamp conversion agrees with the calendar tables (shared with C08)", 15)
     rep.call(c08.r08_2, prog, rep)
